@@ -144,14 +144,19 @@ class SimClock(object):
         import time as _t
         self._t = _t
         self.now = float(epoch)
+        self.epoch = float(epoch)
         self.reads = 0
+        self.tick = 1.0
+        self.returned = []
 
     def advance(self, dt):
         self.now += dt
 
     def time(self):
         self.reads += 1
-        return self.now
+        v = self.now
+        self.now += self.tick
+        return v
 
     def localtime(self, secs=None):
         return self._t.gmtime(self.now if secs is None else secs)
@@ -160,7 +165,10 @@ class SimClock(object):
 
     def strftime(self, fmt, t=None):
         self.reads += 1
-        return self._t.strftime(fmt, self._t.gmtime(self.now) if t is None else t)
+        v = self._t.strftime(fmt, self._t.gmtime(self.now) if t is None else t)
+        self.returned.append((fmt, v))
+        self.now += self.tick                      # simulated time passes between two reads of the clock
+        return v
 
     def sleep(self, dt):
         self.now += dt
